@@ -53,6 +53,7 @@ func genC19(rt *rapid.T) *Request {
 	rq.HTTP = rapid.Bool().Draw(rt, "http")
 	if rq.HTTP {
 		p.NumStyle = oneOf(rt, "num_style", "", "", "zeros", "plus")
+		p.BoolStyle = oneOf(rt, "bool_style", "", "", "digit", "letter", "LETTER", "UPPER", "Title")
 		p.Repeat = oneOf(rt, "repeat", []string(nil), nil, nil, []string{"max-ttl", "port"}, []string{"traceroute-queries", "e2e-queries", "protocol", "tcp-method", "ipv6"})
 	}
 	form := oneOf(rt, "target_form", "v4", "v4", "v6", "v6br", "v4port", "v6brport", "name", "nameport")
